@@ -3,6 +3,7 @@
    paste into their output (C/C++: <T>_C(lit); Rust: `pub const X: ty = lit;`; Java: `ty X = lit;`).
    Definitions only. *)
 Require Import Base Syntax.
+Require Import gen.ConstFacts.
 Open Scope string_scope.
 
 Definition is_digit (c : ascii) : bool :=
@@ -177,7 +178,14 @@ Definition float_parse (limit : N) (body : string) : option bool :=
       end
   end.
 
+(* The pinned upstream check removed every "0x" before parsing, also for floats (0x10 was read
+   as the decimal 10, 0x1e5 as 1e5); the repaired check (ConstFacts.float_parsed_as_written)
+   parses the literal as written, so a hexadecimal one is a parse error. *)
+Definition has_0x (raw : string) : bool := negb (String.eqb (remove_0x raw) raw).
 Definition range_check_float (p : prim) (raw : string) : option bool :=
+  if float_parsed_as_written && has_0x raw then
+    match p with F32 | F64 => Some false | _ => None end
+  else
   let s := remove_0x raw in
   let body := match s with String "-" r => r | String "+" r => r | _ => s end in
   match p with
